@@ -1281,6 +1281,18 @@ func (env *Env) evalCall(x *ECall) SV {
 		return SV{V: Store(a.V, k.V, v.V), T: a.T}
 	case "concat":
 		return SV{vc.strCat(env.st, arg(0).V, arg(1).V), types.Typ[types.String]}
+	case "sent":
+		// sent(ch): how many values the function has sent on the channel ch so far on this path
+		ch := arg(0).V
+		var sum *Term = IntLit(0)
+		for _, ev := range env.st.events {
+			if ev.Kind == "send" && len(ev.Args) > 0 {
+				if ct, ok := ev.Args[0].(*Term); ok {
+					sum = Bin(sortInt, "+", sum, Ite(Eq(ct, ch), IntLit(1), IntLit(0)))
+				}
+			}
+		}
+		return SV{sum, ti}
 	case "spawned":
 		n := 0
 		for _, ev := range env.st.events {
